@@ -29,7 +29,9 @@ def c11Line (line : String) : String :=
       let w := W.run tb.env (fun k => k * 31 + 5) tb.ticks ()
       let m := M.run stdHeap tb.env tb.ticks ()
       -- closure-style tables allocate no record per `@`: the memory model does not apply, the queue model is the prediction
-      let mobs := if tb.closureStyle then showRun w else showRun m
+      -- tables with `selK(t, v)` requests (records of two cells): the memory model with record layout
+      let mobs := if tb.closureStyle then showRun w
+        else if tb.hasUpv then showRun (R.run tableFmt stdHeap tb.env tb.ticks ()) else showRun m
       -- the same two loops with the literal BinaryHeap port inside (the `…_on_binary_heap` theorems are about these)
       let vmH := Vm.runH stdHeap tb.env tb.ticks ()
       let wH := W.runH stdHeap tb.env tb.ticks ()
